@@ -25,11 +25,8 @@ struct Rec {
 
 constexpr u32 H1 = 0x00C0;
 
-void build_firmware(Asm& a, bool irq_driven, bool reconf, bool sem_service, bool timer_irq, bool vectored) {
-    auto service = [&](bool save) {
-        if (save) {
-            a.w(op::PUSH_R0).w(op::PUSH_R1);
-        }
+void build_firmware(Asm& a, bool irq_driven, bool reconf, bool sem_service, bool timer_irq, bool vectored, bool dispatch) {
+    auto service_body = [&]() {
         const int bit[3] = {8, 12, 13};
         for (int ch = 0; ch < 3; ++ch) {
             a.load_r0(MMIO + 0x0D6);
@@ -46,6 +43,28 @@ void build_firmware(Asm& a, bool irq_driven, bool reconf, bool sem_service, bool
         }
         if (reconf)
             a.store_imm(MMIO + 0x0D4, 0); // rewrites the interrupt-disable bits (same value) while the host may be sending
+    };
+    auto service = [&](bool save) {
+        if (save) {
+            a.w(op::PUSH_R0).w(op::PUSH_R1);
+        }
+        if (save && dispatch) {
+            // a handler that dispatches on the controller's pending register, as firmware with several sources does: the mailbox
+            // is serviced only if its pending bit is set; the bit is acknowledged BEFORE the channels are read, so a send that
+            // arrives during the service raises it again
+            a.load_r0(MMIO + 0x200);
+            a.w((u16)(0x9000 | 14 << 8)); // tstb r0, 14
+            u32 patch = a.at;
+            a.br(0, 2);                    // neq: the mailbox did not request this entry
+            a.store_imm(MMIO + 0x202, 0x4000);
+            service_body();
+            if (timer_irq)
+                a.store_imm(MMIO + 0x20, timer_cfg_word(0, false, false, true));
+            a.words[patch + 1] = (u16)a.at;
+            a.w(op::POP_R1).w(op::POP_R0);
+            return;
+        }
+        service_body();
         if (save) {
             a.store_imm(MMIO + 0x202, 0x4000);
             if (timer_irq) // each mailbox interrupt arms ONE more timer interrupt: a finite, unrelated second source
@@ -117,7 +136,7 @@ public:
         return {1, 0};
     }
     std::vector<std::pair<std::string, s64>> simplest_knobs() const override {
-        return {{"timer_irq", 0}, {"reenter", 0}, {"reconf", 0}, {"sem", 0}, {"pct", 0}, {"stall_len", 0}, {"hosts", 1}, {"vectored", 0}};
+        return {{"timer_irq", 0}, {"reenter", 0}, {"reconf", 0}, {"sem", 0}, {"pct", 0}, {"stall_len", 0}, {"hosts", 1}, {"vectored", 0}, {"dispatch", 0}};
     }
 
     Plan generate(u64 seed, const Tier& tier) override {
@@ -129,6 +148,7 @@ public:
         p.set_knob("sem", (s64)r.chance(1, 2));
         p.set_knob("timer_irq", (s64)r.chance(1, 2));
         p.set_knob("vectored", (s64)r.chance(1, 3)); // the mailbox interrupt arrives on the vectored line (target address + context bit)
+        p.set_knob("dispatch", (s64)r.chance(1, 3)); // the handler services the mailbox only if its pending bit is set in the controller
         p.set_knob("timer_period", (s64)r.range(3, 60));
         p.set_knob("timer_periodic", (s64)r.chance(1, 4));
         int hosts = tier.thorough && r.chance(1, 2) ? 2 : (r.chance(1, 4) ? 2 : 1);
@@ -290,7 +310,10 @@ public:
         bool irq_driven = plan.knob("irq_driven", 0) != 0;
         const bool timer_irq = plan.knob("timer_irq", 0) != 0;
         const bool vectored = irq_driven && plan.knob("vectored", 0) != 0;
-        build_firmware(a, irq_driven, plan.knob("reconf", 0) != 0, plan.knob("sem", 0) != 0, timer_irq, vectored);
+        const bool dispatch = irq_driven && plan.knob("dispatch", 0) != 0;
+        build_firmware(a, irq_driven, plan.knob("reconf", 0) != 0, plan.knob("sem", 0) != 0, timer_irq, vectored, dispatch);
+        if (dispatch)
+            out.probes["handler_dispatches_on_pending_bits"]++;
         b.load(a.words);
         for (u16 o = 0x206; o <= 0x20C; o += 2)
             t.MMIOWrite(o, 0);
